@@ -234,6 +234,9 @@ func idxSet(s string) map[int]bool {
 
 func c17Exec(op string) string {
 	f := Fields(op)
+	if strings.HasPrefix(f[0], "m") || f[0] == "resetm" {
+		return mExec(f)
+	}
 	switch f[0] {
 	case "reset":
 		return doReset(f[1], PHex(f[2]), int(PU64(f[3])))
@@ -393,6 +396,7 @@ func c17Gen(r *Rng, tier string, emit func(string)) {
 	if tier == "thorough" {
 		cases = 600
 	}
+	mGen(r, map[bool]int{false: 12, true: 200}[tier == "thorough"], emit)
 	types := []string{"deterministic", "deterministic", "bip44", "xpub", "collection"}
 	for c := 0; c < cases; c++ {
 		typ := types[c%len(types)]
